@@ -346,7 +346,10 @@ pub fn generate(kind: &str, tier: &str, seed: u64, shard: u64, nshards: u64, pat
                     t.emit(&enc_event(&vec![Amf0Value::StrictArray(vec![Amf0Value::Boolean(true); *n]), Amf0Value::Number(1.0)]));
                 }
                 // larger arrays are too slow for the TLA+ reference decoder: only the round trip is recorded (compared in Rust)
-                for n in [4095usize, 4096, 4097, 65535, 65536, 65537, 100000].iter() {
+                // (every power of two up to 2^17, minus / plus one: a count is a number like any other)
+                let mut counts: Vec<usize> = vec![100000];
+                for k in 1..=17u32 { for d in [-1i64, 0, 1].iter() { let c = (1i64 << k) + d; if c > 1100 || k <= 3 { counts.push(c as usize); } } }
+                for n in counts.iter() {
                     let vals = vec![Amf0Value::StrictArray((0..*n).map(|i| Amf0Value::Number(i as f64)).collect()), Amf0Value::Null];
                     let (res, dres, same, dtop) = match catch_unwind(AssertUnwindSafe(|| serialize(&vals))) {
                         Ok(Ok(b)) => { let (dres, dvals, _) = lib_decode(&b); let same = dvals == vals; ("ok".to_string(), dres, same, dvals.len()) }
@@ -354,6 +357,20 @@ pub fn generate(kind: &str, tier: &str, seed: u64, shard: u64, nshards: u64, pat
                         Err(p) => (format!("panic:{}", panic_msg(p)), "".to_string(), false, 0),
                     };
                     t.emit(&json!({"ev":"EncBig","n":n,"res":res,"dres":dres,"same":same,"dtop":dtop}));
+                }
+                // objects with many properties, and many values in one sequence (round trip only, compared in Rust)
+                for n in [255usize, 256, 257, 1023, 1024, 1025, 4096, 4097, 65535, 65536, 65537].iter() {
+                    let mut p = HashMap::new();
+                    for i in 0..*n { p.insert(format!("p{}", i), Amf0Value::Number(i as f64)); }
+                    let flat: Vec<Amf0Value> = (0..*n).map(|i| if i % 2 == 0 { Amf0Value::Boolean(i % 4 == 0) } else { Amf0Value::Utf8String(format!("{}", i)) }).collect();
+                    for vals in [vec![Amf0Value::Object(p), Amf0Value::Undefined], flat].iter() {
+                        let (res, dres, same, dtop) = match catch_unwind(AssertUnwindSafe(|| serialize(vals))) {
+                            Ok(Ok(b)) => { let (dres, dvals, _) = lib_decode(&b); let same = &dvals == vals; ("ok".to_string(), dres, same, dvals.len()) }
+                            Ok(Err(e)) => (format!("err:{:?}", e), "".to_string(), false, 0),
+                            Err(p) => (format!("panic:{}", panic_msg(p)), "".to_string(), false, 0),
+                        };
+                        t.emit(&json!({"ev":"EncBig","n":n,"res":res,"dres":dres,"same":same,"dtop":dtop}));
+                    }
                 }
                 // the same container value several times in one sequence and inside another container
                 {
